@@ -31,7 +31,7 @@ TIE_MODULES = ["StathamModel.Tie"]
 ASSUMPTIONS = ["reconfiguration goes through attribute assignment on the class and through its properties mapping and the Property objects in it; "
                "mutating an element or container object that parent and child both refer to (e.g. Child.required.append) is element sharing, not subclass reconfiguration",
                "single inheritance from Object (the DSL's documented form)"]
-N_HIST = {"quick": 150, "thorough": 5000}
+N_HIST = {"quick": 150, "thorough": 2500}
 KEYWORDS = ["default", "const", "enum", "required", "description", "minProperties", "maxProperties", "patternProperties",
             "additionalProperties", "propertyNames", "dependencies"]
 PROBE_VALUES = [{}, {"a": 1}, {"a": "x"}, {"a": "x", "b": 2}, {"b": None}, {"c": [1]}, {"a b": 1}, {"class": "k"}, {"zz": 1}, {"a": 1, "b": 2, "c": 3, "zz": 4},
